@@ -33,6 +33,7 @@ import (
 	"github.com/kubewharf/kubebrain/pkg/server"
 	"github.com/kubewharf/kubebrain/pkg/server/brain"
 	"github.com/kubewharf/kubebrain/pkg/server/etcd"
+	"github.com/kubewharf/kubebrain/pkg/server/service"
 	"github.com/kubewharf/kubebrain/pkg/server/service/etcdproxy"
 	"github.com/kubewharf/kubebrain/pkg/server/service/leader"
 	"github.com/kubewharf/kubebrain/pkg/server/service/revision"
@@ -1208,6 +1209,14 @@ func main() {
 		}
 	}
 
+	// ---- part 4: take-over
+	if cs, fail := runTakeover(args.Scratch); cs.Coq != "" {
+		w.Add(cs)
+		if fail != "" {
+			w.Fail(lib.ImplFailure{CaseID: w.Len() - 1, What: "take-over scenario: " + fail, Case: cs.JSON})
+		}
+	}
+
 	// ---- part 3b: /status handler of server.NewServer in both roles
 	for _, sc := range stat.collect(s) {
 		w.Add(sc)
@@ -1223,6 +1232,139 @@ func main() {
 		fmt.Fprintln(os.Stderr, err)
 		os.Exit(2)
 	}
+}
+
+// ---------- part 4: a read through a node that is taking over ----------
+
+// probeBackend passes everything through; it calls back before SetCurrentRevision is delegated
+type probeBackend struct {
+	backend.Backend
+	beforeSet func(rev uint64)
+}
+
+func (p *probeBackend) SetCurrentRevision(rev uint64) {
+	if p.beforeSet != nil {
+		p.beforeSet(rev)
+	}
+	p.Backend.SetCurrentRevision(rev)
+}
+
+// runTakeover: old leader A commits k0, B (a follower) adopts A's revision, A commits k1 and disappears (no lock
+// record), B = real server.NewServer campaigns; follower C (real etcd.RPCServer + real syncer) points at B's real /status.
+func runTakeover(scratch string) (lib.Case, string) {
+	const prefix = "/registry"
+	k0, k1 := prefix+"/pods/default/k0", prefix+"/pods/default/k1"
+	m := &lib.NopMetrics{}
+	store, _, _ := lib.NewEngine(lib.EngMem, scratch)
+	ctx := context.Background()
+	fail := ""
+	create := func(b backend.Backend, key string) uint64 {
+		resp, err := b.Create(ctx, &proto.CreateRequest{Key: []byte(key), Value: []byte("v")})
+		if err != nil || resp == nil || !resp.Succeeded {
+			fail = "create " + key + " failed"
+			return 0
+		}
+		if !lib.WaitUntil(3*time.Second, func() bool { return b.GetCurrentRevision() >= resp.Header.Revision }) {
+			fail = "revision not committed"
+		}
+		return resp.Header.Revision
+	}
+	backendA := backend.NewBackend(store, backend.Config{Prefix: prefix, Identity: "A:2380"}, m)
+	t0, _ := store.GetTimestampOracle(ctx)
+	backendA.SetCurrentRevision(t0)
+	create(backendA, k0)
+	backendB := backend.NewBackend(store, backend.Config{Prefix: prefix, Identity: "B:2380"}, m)
+	old := backendA.GetCurrentRevision()
+	backendB.SetCurrentRevision(old) // B's last follower read synced with A here
+	create(backendA, k1)
+
+	listReq := &etcdserverpb.RangeRequest{Key: []byte(prefix + "/pods/"), RangeEnd: []byte(prefix + "/pods0")}
+	has := func(resp *etcdserverpb.RangeResponse, key string) bool {
+		for _, kv := range resp.Kvs {
+			if string(kv.Key) == key {
+				return true
+			}
+		}
+		return false
+	}
+	ready, done := make(chan struct{}), make(chan struct{})
+	var once sync.Once
+	var etcdC *etcd.RPCServer
+	var addrB string
+	var version uint64
+	midStatus, midList := lib.None(), lib.None()
+	var midJ map[string]interface{}
+	getStatus := func() (int, uint64) {
+		c := &http.Client{Timeout: 2 * time.Second}
+		resp, err := c.Get("http://" + addrB + "/status")
+		if err != nil {
+			return -1, 0
+		}
+		defer resp.Body.Close()
+		b, _ := io.ReadAll(resp.Body)
+		var lr revision.LeaderRevision
+		if resp.StatusCode == 200 && json.Unmarshal(b, &lr) == nil {
+			return 200, lr.Revision
+		}
+		return resp.StatusCode, 0
+	}
+	probe := &probeBackend{Backend: backendB}
+	probe.beforeSet = func(rev uint64) {
+		once.Do(func() {
+			<-ready
+			version = rev
+			code, r := getStatus()
+			if code == 200 {
+				midStatus = lib.Some(lib.N(r))
+			}
+			c, cancel := context.WithTimeout(ctx, 5*time.Second)
+			resp, err := etcdC.Range(c, listReq)
+			cancel()
+			midJ = map[string]interface{}{"status_code": code, "status_revision": r, "list_err": fmt.Sprint(err)}
+			if err == nil && resp != nil {
+				midList = lib.Some(lib.Bool(has(resp, k1)))
+				var ks []string
+				for _, kv := range resp.Kvs {
+					ks = append(ks, string(kv.Key))
+				}
+				midJ["list_keys"], midJ["list_header"] = ks, resp.Header.Revision
+			}
+			close(done)
+		})
+	}
+	srvB := server.NewServer(probe, m, server.Config{}) // campaigns at once; the call-back waits for `ready`
+	ln, err := net.Listen("tcp", "127.0.0.1:0")
+	if err != nil {
+		return lib.Case{}, "listen"
+	}
+	mux := http.NewServeMux()
+	mux.Handle("/status", srvB.GetPeerHttpHandlers()["/status"])
+	go http.Serve(ln, mux)
+	addrB = ln.Addr().String()
+	backendC := backend.NewBackend(store, backend.Config{Prefix: prefix, Identity: "C:2380"}, m)
+	roleC := &leader.Stub{ElectionInfo: leader.ElectionInfo{IsLeader: false, LeaderAddress: addrB}}
+	etcdC = etcd.New(backendC, m, service.NewPeerService(roleC, m, backendC, service.Config{}))
+	close(ready)
+	select {
+	case <-done:
+	case <-time.After(20 * time.Second):
+		fail = "B never initialised its revision (the election did not complete)"
+	}
+	// afterwards: the first 200 answer, and a complete List
+	var firstRev uint64
+	if !lib.WaitUntil(8*time.Second, func() bool { c, r := getStatus(); firstRev = r; return c == 200 }) && fail == "" {
+		fail = "B never answered /status as leader"
+	}
+	post := false
+	if fail == "" {
+		c, cancel := context.WithTimeout(ctx, 5*time.Second)
+		resp, err := etcdC.Range(c, listReq)
+		cancel()
+		post = err == nil && resp != nil && has(resp, k0) && has(resp, k1)
+	}
+	j := map[string]interface{}{"scenario": "takeover", "old": old, "version": version, "at_set_instant": midJ, "first_leader_revision": firstRev, "post_complete": post}
+	return lib.Case{Kind: "takeover", Coq: lib.App("TakeoverCase", lib.N(old), lib.N(version), midStatus, midList, lib.N(firstRev), lib.Bool(post)),
+		JSON: j, Outcomes: []string{"takeover"}}, fail
 }
 
 // ---------- part 3 ----------
